@@ -290,6 +290,55 @@ def reuse_case(group):
     return out
 
 
+def shift_case(group):
+    """histories in one process: (message, tag) pairs whose concatenations coincide (bytes moved across the
+    argument boundary) one after the other; hash constructors that report the same name with other
+    parameters one after the other.  Every result is the model's."""
+    import functools
+    HC = _hc()
+    cfg = _cfg(group)
+    f = HC.hash_to_G1 if group == "E1" else HC.hash_to_G2
+    gname = "G1" if group == "E1" else "G2"
+    tag = h2c.DST_G2
+    calls = [(b"transfer:42;ctx=A", tag, "sha256"), (b"transfer:42;", b"ctx=A" + tag, "sha256"), (b"transfer:42;ctx=A", tag, "sha256"),
+             (b"", b"ab" + tag, "sha256"), (b"a", b"b" + tag, "sha256"), (b"ab", tag, "sha256"), (b"a", b"b" + tag, "sha256"),
+             (b"msg", tag, "blake2b"), (b"msg", tag, functools.partial(hashlib.blake2b, digest_size=32)),
+             (b"msg", tag, functools.partial(hashlib.blake2b, person=b"py_ecc")), (b"msg", tag, "blake2b"),
+             (b"msg", tag, functools.partial(hashlib.blake2b, digest_size=48)), (b"msg", tag, lambda d=b"": hashlib.sha512(d)),
+             (b"msg", tag, "sha512")]
+    out = []
+    for i, (m_, d_, hn) in enumerate(calls):
+        exp = h2c.hash_to_curve(gname, m_, d_, hn)
+        H = getattr(hashlib, hn) if isinstance(hn, str) else hn
+        try:
+            got = lib.opt_norm(cfg, f(m_, d_, H))
+        except Exception as e:  # noqa: BLE001
+            got = "raise " + type(e).__name__
+        out.append((i, exp, got))
+    return out
+
+
+def task_shift(a, env):
+    r = R("argument-boundary-shifts-and-parametrised-hashes")
+    for group in ("E2", "E1"):
+        for step, exp, got in shift_case(group):
+            r.ev += 1
+            r.dk.add((group, step))
+            if exp != got:
+                r.viol("C10:%s:hash_to_curve:history:%s" % ("G1" if group == "E1" else "G2", "boundary-shift" if step < 7 else "parametrised-hash"),
+                       ME + ":replay_shift", {"group": group}, exp, got, note="call %d of the history" % step)
+                break
+    r.sample({"history": "hash_to_G2(b'transfer:42;ctx=A', T); hash_to_G2(b'transfer:42;', b'ctx=A' + T); ...; blake2b, blake2b(digest_size=32), ..."})
+    return r
+
+
+def replay_shift(a):
+    for step, exp, got in shift_case(a["group"]):
+        if exp != got:
+            return {"call": step, "expected": exp, "observed": got}
+    return None
+
+
 def h2f_case(m, count, mi, ti, hn):
     """hash_to_field of the suite (section 5.2) for a count other than the 2 that hash_to_curve uses"""
     HC = _hc()
@@ -401,6 +450,7 @@ def run(ctx):
         if ch:
             tasks.append(("pipe", {"cases": ch, "sample": i == 0}))
     tasks.append(("reuse", {}))
+    tasks.append(("shift", {}))
     tasks.append(("h2f", {}))
     ctx.bounds = {"map_to_curve": plan, "pipeline_cases_per_group": len(cases), "hashes": hashes}
     ctx.pmap(ME, tasks)
